@@ -14,6 +14,7 @@ import (
 //	new
 //	mkd|mki ...            build through Spec{}.MakeData/MakeInterest with a real (recording) signer
 //	rd c | rd w | rd 3,17  ReadData/ReadInterest on the bytes, contiguous / one segment / cut at offsets
+//	rd own                 … over the buffers exactly as the encoder returned them (EncodedData.Wire read back)
 //	rp <cuts>              ReadPacket
 //	rdall                  every single cut (packets <= 600 B): first cut whose result differs
 //	rdall2                 every pair of cuts (packets <= 200 B, thorough)
@@ -37,10 +38,12 @@ func gen(g *common.Gen) {
 		size := EstSize(mk)
 		g.Op("rd c")
 		g.Op("rd w")
+		g.Op("rd own")
 		for k := r.Range(1, 4); k > 0; k-- {
 			g.Op("rd %s", GenCuts(r, size))
 		}
 		g.Op("rp c")
+		g.Op("rp own")
 		g.Op("rp %s", GenCuts(r, size))
 		if size <= 700 {
 			g.Op("rdall")
@@ -127,10 +130,16 @@ func exec(op string) string {
 	case "mkd":
 		out, b := MakeData(f)
 		last, lastMkOut = b, out
+		if b != nil {
+			OwnSegs = b.SegLens
+		}
 		return out
 	case "mki":
 		out, b := MakeInterest(f)
 		last, lastMkOut = b, out
+		if b != nil {
+			OwnSegs = b.SegLens
+		}
 		return out
 	case "cmp":
 		if lastMkOut == "" {
